@@ -914,6 +914,7 @@ impl Domain for ClusterDomain {
                 // `n` entries with ONE field of the envelope changed and the CRC recomputed:
                 //   len  - the declared length of the nested set bytes is 1 GiB
                 //   ptr  - the relative pointer to the nested set bytes points far outside the message
+                //   shift - one stray byte in front: the root is misplaced
                 //   ok   - nothing changed (control: accepted)
                 let (j, kind, n) = (u(1), t[2], p_u64(t[3]));
                 let mut set = datacake_crdt::OrSWotSet::<2>::default();
@@ -928,8 +929,11 @@ impl Domain for ClusterDomain {
                 match kind {
                     "len" => reply[end - 8..end - 4].copy_from_slice(&(1u32 << 30).to_le_bytes()),
                     "ptr" => reply[end - 12..end - 8].copy_from_slice(&(0x7000_0000i32).to_le_bytes()),
+                    // shift - one stray byte in front of the honest reply: its root is no longer at an aligned position (D35)
+                    "shift" => reply.insert(0, 0xEE),
                     _ => {},
                 }
+                let end = reply.len();
                 let crc = crc32fast::hash(&reply[..end - 4]);
                 reply[end - 4..].copy_from_slice(&crc.to_le_bytes());
                 if let Some((s, _)) = self.fake.take() {
